@@ -15,7 +15,7 @@ use crate::ctx::{guard, show, unshow, CaseCtx, Ctx, Tier};
 use crate::gen;
 use bio::data_structures::rank_select::RankSelect;
 use bio::data_structures::wavelet_matrix::WaveletMatrix;
-use bv::{BitVec, BitsMut};
+use bv::{BitVec, Bits, BitsMut};
 use serde_json::{json, Value};
 use std::cell::Cell;
 
@@ -67,7 +67,11 @@ fn string_to_bits(s: &str) -> Vec<bool> {
 /// `build` = how the BitVec is constructed (the logical content is the same):
 /// 0: all-false vector, ones set; 1: all-true vector (storage padding bits set), zeros cleared;
 /// 2: all-true vector of n+5 bits truncated to n (set bits behind the logical end), zeros cleared
-fn check_rs(plain: &[bool], k: usize, build: u8, cc: &mut CaseCtx) {
+///
+/// `alias`: also call the documented aliases `rank()` / `select()` next to every `rank_1` /
+/// `select_1` query and read `bits()` bit by bit (off only in the part of the bytes family with
+/// k > 1, where it would add a third to the cost of the whole check for no new vector shape)
+fn check_rs(plain: &[bool], k: usize, build: u8, alias: bool, cc: &mut CaseCtx) {
     let n = plain.len();
     debug_assert!(n >= 1 && k >= 1);
     let bits: BitVec<u8> = match build {
@@ -105,6 +109,17 @@ fn check_rs(plain: &[bool], k: usize, build: u8, cc: &mut CaseCtx) {
     let r = guard(|| {
         let rs = RankSelect::new(bits, k);
         let nn = n as u64;
+        // accessors give back the constructor arguments
+        stage.set("k");
+        if rs.k() != k {
+            once.hit(cc, "C17/k/differs-from-constructor-argument", || format!("new(.., {}).k() = {}", k, rs.k()));
+        }
+        stage.set("bits");
+        if rs.bits().len() != nn {
+            once.hit(cc, "C17/bits/differs-from-constructor-argument", || {
+                format!("bits().len() = {}, the vector handed to new() has {} bits", rs.bits().len(), n)
+            });
+        }
         let (mut ones, mut zeros) = (0u64, 0u64);
         for i in 0..n {
             let iu = i as u64;
@@ -132,11 +147,35 @@ fn check_rs(plain: &[bool], k: usize, build: u8, cc: &mut CaseCtx) {
                 });
             }
             acc = mix(acc, opt(r1));
+            if alias {
+                // rank() is documented as an alias of rank_1()
+                stage.set("rank");
+                let ra = rs.rank(iu);
+                if ra != r1 {
+                    once.hit(cc, "C17/rank/differs-from-rank_1", || format!("rank({}) = {:?}, rank_1({}) = {:?}", i, ra, i, r1));
+                }
+                stage.set("bits");
+                if iu < rs.bits().len() && rs.bits().get_bit(iu) != plain[i] {
+                    once.hit(cc, "C17/bits/differs-from-constructor-argument", || {
+                        format!("bits().get_bit({}) = {}, the vector handed to new() has {} there", i, !plain[i], plain[i])
+                    });
+                }
+            }
             // the j-th one/zero bit is at i
             if plain[i] {
                 stage.set("select_1");
                 let s = rs.select_1(ones);
                 acc = mix(acc, opt(s));
+                if alias {
+                    // select() is documented as an alias of select_1()
+                    stage.set("select");
+                    let sa = rs.select(ones);
+                    if sa != s {
+                        once.hit(cc, "C17/select/differs-from-select_1", || {
+                            format!("select({}) = {:?}, select_1({}) = {:?}", ones, sa, ones, s)
+                        });
+                    }
+                }
                 if s != Some(iu) {
                     once.hit(cc, "C17/select_1/wrong-position", || {
                         format!("select_1({}) = {:?}, the {}-th one bit is at {}", ones, s, ones, i)
@@ -182,6 +221,13 @@ fn check_rs(plain: &[bool], k: usize, build: u8, cc: &mut CaseCtx) {
             if r0.is_some() {
                 once.hit(cc, "C17/rank_0/some-beyond-end", || format!("n = {}, rank_0({}) = {:?}", n, i, r0));
             }
+            if alias {
+                stage.set("rank");
+                let ra = rs.rank(i);
+                if ra != r1 {
+                    once.hit(cc, "C17/rank/differs-from-rank_1", || format!("n = {}, rank({}) = {:?}, rank_1({}) = {:?}", n, i, ra, i, r1));
+                }
+            }
         }
         // None for j = 0 and for every j above the count, up to n+1
         stage.set("select_1");
@@ -189,12 +235,29 @@ fn check_rs(plain: &[bool], k: usize, build: u8, cc: &mut CaseCtx) {
         if s.is_some() {
             once.hit(cc, "C17/select_1/some-for-rank-zero", || format!("select_1(0) = {:?}", s));
         }
+        if alias {
+            stage.set("select");
+            let sa = rs.select(0);
+            if sa != s {
+                once.hit(cc, "C17/select/differs-from-select_1", || format!("select(0) = {:?}, select_1(0) = {:?}", sa, s));
+            }
+        }
         for j in (ones + 1..=nn + 1).chain(std::iter::once(u64::MAX)) {
+            stage.set("select_1");
             let s = rs.select_1(j);
             if s.is_some() {
                 once.hit(cc, "C17/select_1/some-beyond-count", || {
                     format!("{} one bits, select_1({}) = {:?}", ones, j, s)
                 });
+            }
+            if alias {
+                stage.set("select");
+                let sa = rs.select(j);
+                if sa != s {
+                    once.hit(cc, "C17/select/differs-from-select_1", || {
+                        format!("{} one bits, select({}) = {:?}, select_1({}) = {:?}", ones, j, sa, j, s)
+                    });
+                }
             }
         }
         stage.set("select_0");
@@ -217,19 +280,26 @@ fn check_rs(plain: &[bool], k: usize, build: u8, cc: &mut CaseCtx) {
     cc.outcome(&acc);
 }
 
-fn rs_case(ctx: &mut Ctx, plain: &[bool], k: usize) {
-    ctx.case(
-        || json!({"kind": "rankselect", "bits": bits_to_string(plain), "k": k}),
-        |cc| check_rs(plain, k, 0, cc),
-    );
+/// case description; "alias" is only written when the alias queries are off (the default, also
+/// for replay files written before the field existed, is on)
+fn rs_desc(plain: &[bool], k: usize, build: u8, alias: bool) -> Value {
+    let mut d = json!({"kind": "rankselect", "bits": bits_to_string(plain), "k": k});
+    if build != 0 {
+        d["build"] = json!(build);
+    }
+    if !alias {
+        d["alias"] = json!(false);
+    }
+    d
+}
+
+fn rs_case(ctx: &mut Ctx, plain: &[bool], k: usize, alias: bool) {
+    ctx.case(|| rs_desc(plain, k, 0, alias), |cc| check_rs(plain, k, 0, alias, cc));
     // other ways of constructing the same vector leave set bits in the storage padding
     let n = plain.len();
     if n % 8 != 0 && (n <= 13 || (n > 60 && n <= 80 && plain[n - 1])) {
         for build in [1u8, 2] {
-            ctx.case(
-                || json!({"kind": "rankselect", "bits": bits_to_string(plain), "k": k, "build": build}),
-                |cc| check_rs(plain, k, build, cc),
-            );
+            ctx.case(|| rs_desc(plain, k, build, alias), |cc| check_rs(plain, k, build, alias, cc));
         }
     }
 }
@@ -247,7 +317,7 @@ fn small_family(tier: Tier, shard: usize, nshards: usize, ctx: &mut Ctx) {
             plain.clear();
             plain.extend((0..len).map(|i| (v >> i) & 1 == 1));
             for &k in &SMALL_KS {
-                rs_case(ctx, &plain, k);
+                rs_case(ctx, &plain, k, true);
             }
             v += nshards as u64;
         }
@@ -283,7 +353,7 @@ fn bytes_family(tier: Tier, shard: usize, nshards: usize, ctx: &mut Ctx) {
             plain.clear();
             plain.extend((0..n).map(|i| (bytes[i / 8] >> (i % 8)) & 1 == 1));
             for &k in &BYTE_KS {
-                rs_case(ctx, &plain, k);
+                rs_case(ctx, &plain, k, k == 1);
             }
         }
         if ctx.res.capped {
@@ -358,7 +428,7 @@ fn runs_family(tier: Tier, shard: usize, nshards: usize, ctx: &mut Ctx) {
                             _ => i % 2 == 1,
                         });
                     }
-                    rs_case(ctx, &plain, k);
+                    rs_case(ctx, &plain, k, true);
                 }
             }
             if ctx.res.capped {
@@ -406,7 +476,7 @@ fn bigk_family(tier: Tier, shard: usize, nshards: usize, ctx: &mut Ctx) {
                             _ => i % 2 == 1,
                         });
                     }
-                    rs_case(ctx, &plain, k);
+                    rs_case(ctx, &plain, k, true);
                 }
             }
             if ctx.res.capped {
@@ -511,7 +581,7 @@ impl Prop for C17Prop {
         "exploration"
     }
     fn rule(&self) -> &'static str {
-        "One case = one (bit vector, k) pair: RankSelect::new on it, then get/rank_1/rank_0 for every i in 0..=n+1 and u64::MAX and select_1/select_0 for every j in 0..=n+1 and u64::MAX against naive counting, plus rank(select(j)) = j on the subject's own answers. Vectors: every vector of length 1..=L; every 9-byte vector over a set of byte patterns with the last byte cut to t bits (65..72 bits); every sequence of up to C superblock-sized chunks of six shapes (zeros, ones, only-first, only-last, all-but-first, all-but-last) followed by one of 12 tails, for each k (small k with up to C chunks; k in {8,9,16,33,64,100} with up to 2/3 chunks, where a superblock holds more than 255 one-bits). Vectors whose length is not a multiple of 8 (short ones and some 65-72-bit ones) are additionally built from an all-true vector and from a truncated longer vector, which leaves set bits in the storage padding. Wavelet matrix: one case = one text over {A,C,G,T,N,$} (every text of length 1..=W, and for every primitive one its periodic extension to at least E symbols), every symbol x every position. All tuples are points of a product space, enumerated once. Non-trivial: the vector spans more than one superblock (n > 32k) or its last byte is partial; wavelet: the text has >= 3 distinct symbols, or >= 2 and more than 32 symbols."
+        "One case = one (bit vector, k) pair: RankSelect::new on it, then get/rank_1/rank_0 for every i in 0..=n+1 and u64::MAX and select_1/select_0 for every j in 0..=n+1 and u64::MAX against naive counting, plus rank(select(j)) = j on the subject's own answers; the documented aliases rank()/select() are called next to every rank_1/select_1 query (same i, same j, including the out-of-range ones) and must return the same value, k() must return the constructor argument and bits() a vector of the same length and content as the one handed to new() (alias queries and the bit-by-bit reading of bits() are left out in the k = 2, 3 cases of the 9-byte family). Vectors: every vector of length 1..=L; every 9-byte vector over a set of byte patterns with the last byte cut to t bits (65..72 bits); every sequence of up to C superblock-sized chunks of six shapes (zeros, ones, only-first, only-last, all-but-first, all-but-last) followed by one of 12 tails, for each k (small k with up to C chunks; k in {8,9,16,33,64,100} with up to 2/3 chunks, where a superblock holds more than 255 one-bits). Vectors whose length is not a multiple of 8 (short ones and some 65-72-bit ones) are additionally built from an all-true vector and from a truncated longer vector, which leaves set bits in the storage padding. Wavelet matrix: one case = one text over {A,C,G,T,N,$} (every text of length 1..=W, and for every primitive one its periodic extension to at least E symbols), every symbol x every position. All tuples are points of a product space, enumerated once. Non-trivial: the vector spans more than one superblock (n > 32k) or its last byte is partial; wavelet: the text has >= 3 distinct symbols, or >= 2 and more than 32 symbols."
     }
     fn assumptions(&self) -> Vec<&'static str> {
         vec![
@@ -530,6 +600,7 @@ impl Prop for C17Prop {
                      "tails": "0 | 1 bit (0,1) | 7, 9, 32k-1 bits (zeros, ones, 0101..)", "k": run_ks(tier)},
             "big_k": {"k": BIG_KS, "chunks": format!("0..={}", tier.pick(2, 3))},
             "queries": "every i in 0..=n+1 and u64::MAX; every j in 0..=n+1 and u64::MAX",
+            "aliases_and_accessors": "k() and bits().len() in every case; rank(i) for every i queried with rank_1, select(j) for every j queried with select_1, bits() bit by bit in every case of the small, runs and big_k families and in the k = 1 cases of the bytes family",
             "wavelet": {"alphabet": "A,C,G,T,N,$", "text_len": format!("1..={}", wm_max(tier)),
                         "periodic_extension_to_at_least": wm_extend_to(tier), "symbols": "all 6", "positions": "all"}
         })
@@ -568,7 +639,8 @@ impl Prop for C17Prop {
             let plain = string_to_bits(case["bits"].as_str().unwrap_or(""));
             let k = case["k"].as_u64().unwrap_or(1) as usize;
             let build = case["build"].as_u64().unwrap_or(0) as u8;
-            ctx.case(|| case.clone(), |cc| check_rs(&plain, k, build, cc));
+            let alias = case["alias"].as_bool().unwrap_or(true);
+            ctx.case(|| case.clone(), |cc| check_rs(&plain, k, build, alias, cc));
         }
     }
 }
